@@ -74,14 +74,17 @@ class Real:
         return {"any": self.any, "keys": self.keys}
 
     def run(self, sc):
-        """Run a scenario {"beh": […], "ops": […]} on the real code.  Each trace entry is
-        [h, in_data seen, out_data seen, return, out_data left, serial of the registration]."""
+        """Run a scenario {"beh": […], "ops": […], "data": "int"|"obj", "ck": callable kinds} on the real code.
+        Each trace entry is [h, in_data seen, out_data seen, return, out_data left, serial of the
+        registration or None when the callable is shared between registrations].  In "obj" mode the data
+        values are tokens of Python objects, resolved by *identity* (World)."""
         em = self.em
         for lst in em.event_handlers.values():        # back to the constructor's empty table
             del lst[:]
-        beh = sc["beh"]
+        world = World(sc.get("data") == "obj")
+        factory = Callables(sc["beh"], sc.get("ck", "c"), world)
         outs = []
-        cur = []
+        kinds = {}
         serial = 0
         sink = _Sink()
         old = sys.stdout
@@ -90,7 +93,7 @@ class Real:
             for op in sc["ops"]:
                 if op[0] == "r":
                     _, ev, h, kind, langs = op
-                    fn = make_handler(beh, h, serial, kind, cur)
+                    fn = factory.make(h, serial)
                     before = sink.unknown
                     if kind == "d":
                         em.register(ev, fn)
@@ -102,14 +105,20 @@ class Real:
                         em.register(ev, fn, tuple(langs))
                     else:
                         em.register(ev, fn, list(langs))
-                    outs.append(["r", sink.unknown > before])
+                    warned = sink.unknown > before
+                    outs.append(["r", warned])
+                    if not warned:
+                        kinds.setdefault(ev, []).append(kind)
                     serial += 1
                 else:
                     _, ev, lang, d = op
-                    del cur[:]
-                    data = self.EventData(lang, ev, d)
+                    del factory.cur[:]
+                    obj = world.obj(d)
+                    data = self.EventData(lang, ev, obj)
+                    if data.in_data is not obj:                # the constructor turns a dict into a namespace:
+                        world.adopt(data.in_data, d)           # that object is the event's original in_data
                     r = em.notify(data)
-                    outs.append(["n", r, data.in_data, data.out_data, [list(x) for x in cur]])
+                    outs.append(["n", r, world.tok(data.in_data), world.tok(data.out_data), [list(x) for x in factory.cur]])
         except Exception as e:                         # the real code raised: that is an output too
             outs.append(["exception", type(e).__name__, str(e)[:200]])
         finally:
@@ -117,33 +126,181 @@ class Real:
         table = []
         for ev, lst in em.event_handlers.items():
             row = []
-            for langs, fn in lst:
+            ks = kinds.get(ev, [])
+            for pos, (langs, fn) in enumerate(lst):
                 ls = langs if isinstance(langs, (list, tuple, set, frozenset)) else ["<%s>" % type(langs).__name__, str(langs)]
-                row.append([sorted(ls) if getattr(fn, "kind", "") == "t" else list(ls), getattr(fn, "h", -1)])
+                was_set = len(ks) == len(lst) and ks[pos] == "t"
+                row.append([sorted(ls) if was_set else list(ls), handler_number(fn)])
             table.append([ev, row])
         return {"outs": outs, "table": table}
 
 
-def make_handler(beh, h, serial, kind, cur):
-    """A recording handler with behaviour beh[h] = [ret, mode, c] or [ret, mode, c, alt_in, alt_ret]."""
-    spec = beh[h] if h < len(beh) else [0, 0, 0]
-    ret, mode, c = spec[0], spec[1], spec[2]
-    alt = (spec[3], spec[4]) if len(spec) == 5 else None
+# ---- data values: tokens <-> Python objects, resolved by identity ---------------------------------
+NS, NSING = 16, 5
+SHAPE_NAMES = ["None", "0", "False", "''", "()", "{}", "dict_str_keys", "dict_nonstr_keys", "list", "tuple",
+               "namespace", "obj_custom_eq_bool", "str", "big_int", "nested_dict", "float"]
 
-    def handler(data):
-        i, o = data.in_data, data.out_data
-        r = alt[1] if (alt is not None and i == alt[0]) else ret
+
+class Weird:
+    """equal to everything, falsy, unhashable-by-value: nothing in notify may depend on ==, bool or hash of the data"""
+    def __init__(self, t):
+        self.t = t
+    def __eq__(self, other):
+        return True
+    def __ne__(self, other):
+        return False
+    def __bool__(self):
+        return False
+    def __hash__(self):
+        return 0
+    def __repr__(self):
+        return "Weird(%d)" % self.t
+
+
+def make_shape(t):
+    k = t % NS
+    if k == 0: return None
+    if k == 1: return 0
+    if k == 2: return False
+    if k == 3: return ""
+    if k == 4: return ()
+    if k == 5: return {}
+    if k == 6: return {"k": t, "lang": "x"}
+    if k == 7: return {t: 1, (1, 2): 2, None: 3}
+    if k == 8: return [t] if t % 32 >= NS else []
+    if k == 9: return (t, "t", [t])
+    if k == 10: return types.SimpleNamespace(v=t)
+    if k == 11: return Weird(t)
+    if k == 12: return "s" + str(t)
+    if k == 13: return 10 ** 6 + t
+    if k == 14: return {"a": {"b": [t]}, "in_data": t}
+    return float(t) + 0.5
+
+
+class World:
+    """Token <-> object table of one scenario.  In "int" mode a data value is the int itself.  In "obj" mode
+    token t denotes one Python object of shape t % 16, created once; a token whose shape is an interned
+    singleton (None, 0, False, "", ()) is canonicalised to the shape index, so distinct tokens are distinct
+    objects and `tok` (lookup by id) tells exactly WHICH object a handler was shown."""
+    def __init__(self, objmode):
+        self.objmode = objmode
+        self.objs = {}
+        self.toks = {}
+        self.keep = []
+
+    def canon(self, t):
+        return t % NS if (self.objmode and t % NS < NSING) else t
+
+    def obj(self, t):
+        if not self.objmode:
+            return t
+        t = self.canon(t)
+        if t not in self.objs:
+            o = make_shape(t)
+            self.objs[t] = o
+            self.toks[id(o)] = t
+        return self.objs[t]
+
+    def adopt(self, o, t):
+        self.keep.append(self.objs.get(t))
+        self.objs[t] = o
+        self.toks[id(o)] = t
+
+    def tok(self, o):
+        if not self.objmode:
+            return o if (isinstance(o, int) and not isinstance(o, bool)) else "<%s %r>" % (type(o).__name__, o)
+        t = self.toks.get(id(o))
+        return t if t is not None else "<unknown object %s %.40r>" % (type(o).__name__, o)
+
+
+# ---- handlers: behaviour beh[h], packaged as different kinds of callables --------------------------
+class _Method:
+    def __init__(self, factory, h):
+        self.factory = factory
+        self.h = h
+    def handle(self, data):
+        return self.factory.call(self.h, None, data)
+
+
+class _EqCallable:
+    """callables that are equal (and hash equal) whenever they stand for the same handler number, but are
+    distinct objects per registration"""
+    def __init__(self, factory, h, serial):
+        self.factory = factory
+        self.h = h
+        self.serial = serial
+    def __eq__(self, other):
+        return isinstance(other, _EqCallable) and other.h == self.h
+    def __hash__(self):
+        return hash(("eq", self.h))
+    def __call__(self, data):
+        return self.factory.call(self.h, self.serial, data)
+
+
+def handler_number(fn):
+    if hasattr(fn, "__self__") and hasattr(fn.__self__, "h"):
+        return fn.__self__.h
+    return getattr(fn, "h", -1)
+
+
+class Callables:
+    """kind per handler number (string indexed by h, last char repeated):
+       c  a fresh closure per registration (knows its registration serial)
+       f  ONE function object per handler number, registered again and again
+       m  bound methods `obj.handle` of ONE object per handler number (fresh, ==-equal bound methods)
+       e  fresh callable objects that compare equal per handler number"""
+    def __init__(self, beh, ck, world):
+        self.beh = beh
+        self.ck = ck or "c"
+        self.world = world
+        self.cur = []
+        self.shared = {}
+
+    def call(self, h, serial, data):
+        w = self.world
+        spec = self.beh[h] if h < len(self.beh) else [0, 0, 0]
+        ret, mode, c = spec[0], spec[1], spec[2]
+        i, o = w.tok(data.in_data), w.tok(data.out_data)
+        r = spec[4] if (len(spec) == 5 and i == spec[3]) else ret
+        ii = i if isinstance(i, int) else -1
+        oo = o if isinstance(o, int) else -1
         if mode == 1:
-            data.out_data = i * c + h + 1
+            data.out_data = w.obj(ii * c + h + 1)
         elif mode == 2:
-            data.out_data = o * c + h + 1
+            data.out_data = w.obj(oo * c + h + 1)
         elif mode == 3:
-            data.out_data = c
-        cur.append((h, i, o, r, data.out_data, serial))
+            data.out_data = w.obj(c)
+        elif mode == 4:
+            data.out_data = data.in_data               # the very object it was shown
+        self.cur.append((h, i, o, r, w.tok(data.out_data), serial))
         return r
-    handler.h = h
-    handler.kind = kind
-    return handler
+
+    def make(self, h, serial):
+        k = self.ck[min(h, len(self.ck) - 1)]
+        if k == "f":
+            if h not in self.shared:
+                def shared_fn(data, _h=h):
+                    return self.call(_h, None, data)
+                shared_fn.h = h
+                self.shared[h] = shared_fn
+            return self.shared[h]
+        if k == "m":
+            if h not in self.shared:
+                self.shared[h] = _Method(self, h)
+            return self.shared[h].handle
+        if k == "e":
+            return _EqCallable(self, h, serial)
+        def closure(data):
+            return self.call(h, serial, data)
+        closure.h = h
+        return closure
+
+
+def make_handler(beh, h, serial, kind, cur):
+    """a single recording closure over int data (used for the stubbed default table)"""
+    f = Callables(beh, "c", World(False))
+    f.cur = cur
+    return f.make(h, serial)
 
 
 # --------------------------------------------------------------------------------------------
@@ -165,6 +322,8 @@ def model_request(sc, params, variant="model"):
         else:
             ops.append(op)
     req = {"m": "events", "any": params["any"], "keys": params["keys"], "beh": sc["beh"], "ops": ops}
+    if sc.get("data") == "obj":
+        req["canon"] = [NS, NSING]
     if variant != "model":
         req["variant"] = variant
     return req
@@ -204,9 +363,10 @@ def oracle(sc, real, keys, ANY):
             if (flags, fout, trace) != (0, d, []):
                 return "unknown event is not a no-op"
             continue
-        expected = [s for (L, _, s) in regs[ev] if lang in L or ANY in L]
-        ran = [t[5] for t in trace]
-        if ran != expected[:len(ran)]:
+        expected = [(h, s) for (L, h, s) in regs[ev] if lang in L or ANY in L]
+        ran = [(t[0], t[5]) for t in trace]          # serial is None when one callable serves several registrations
+        if len(ran) > len(expected) or any(rh != eh or (rs is not None and rs != es)
+                                           for (rh, rs), (eh, es) in zip(ran, expected)):
             return "handlers run are not the matching registrations in registration order"
         if any(blocks(t[3]) for t in trace[:-1]):
             return "a handler ran after a handler that requested blocking"
@@ -293,6 +453,46 @@ def gen_regs(n, forms, E1, E2, UNK):
                "ops": [["r", ev, 2 * i + b, f[0], f[1]] for i, (ev, f, b) in enumerate(combo)] + notes}
 
 
+def gen_callables(n, E1, ck):
+    """every sequence of exactly n registrations of two handlers A (0) and B (1) for one event, where all
+    registrations of a handler number use ONE callable (ck: f same function, m bound methods of one object,
+    e equal-but-distinct callables), over 4 language sets, A / B succeeding or blocking; raised for three
+    languages.  Handler identity is the registration, not the callable: A:[python] B:[%] A:[java] raised for
+    java must run B then A."""
+    langsets = [["python"], ["java"], ["%"], ["python", "java"]]
+    opts = [(h, L) for h in (0, 1) for L in langsets]
+    for combo in itertools.product(opts, repeat=n):
+        if len({h for h, _ in combo}) == n and n > 1:
+            continue                                   # no handler registered twice: covered by the other parts
+        for ra, rb in ((1, 1), (1, 3), (3, 1), (3, 3)):
+            yield {"beh": [[ra, 1, 10], [rb, 2, 10]], "ck": ck,
+                   "ops": [["r", E1, h, "l", L] for h, L in combo]
+                          + [["n", E1, "python", 1], ["n", E1, "java", 1], ["n", E1, "go", 1]]}
+
+
+def gen_shapes(E1):
+    """three any-language handlers over object data: the event's in_data has every shape (a dict is turned
+    into a namespace by EventData itself; the non-str-key dict cannot be passed to EventData at all); handler 0
+    leaves an object of every shape with every kind of return; handler 1 keeps out_data / re-assigns the very
+    object it was shown / re-assigns the object handler 0 left / leaves a fresh object; handler 2 only looks."""
+    for d in range(NS):
+        if d == 7:
+            continue
+        for s1 in range(NS):
+            for r0 in (1, 0, None, 3):
+                for m1 in (0, 4, 3, 1):
+                    for r1 in (1, 0):
+                        yield {"data": "obj", "beh": [[r0, 3, s1], [r1, m1, s1 if m1 == 3 else 10], [1, 0, 0]],
+                               "ops": [["r", E1, h, "d", None] for h in range(3)] + [["n", E1, "go", d]]}
+
+
+def as_obj(scs):
+    for sc in scs:
+        sc = dict(sc)
+        sc["data"] = "obj"
+        yield sc
+
+
 def gen_kinds(kinds):
     """every EVENT_KIND value (with or without a list), -1 (EventData's default) and 999: two handlers for
     it, one for its neighbour, then both are raised"""
@@ -306,15 +506,19 @@ def gen_kinds(kinds):
 
 def gen_random(rng, keys, kinds, langs_pool):
     nb = rng.randint(1, 8)
+    objmode = rng.random() < 0.5
     beh = []
     for _ in range(nb):
         r = rng.choice([None, 0, 1, 1, 1, 3, 5, 9, 2, 4, 8, 16, 17, 31, 255, 1 << 40, rng.randint(0, 31)])
-        spec = [r, rng.choice([0, 1, 1, 2, 3]), rng.choice([3, 10, 7])]
+        mode = rng.choice([0, 1, 1, 2, 3, 4])
+        spec = [r, mode, rng.randrange(NS) if (objmode and mode == 3) else rng.choice([3, 10, 7])]
         if rng.random() < 0.3:
             spec += [rng.choice([1, 2, 11, 12, 3]), rng.choice([None, 0, 1, 3, 2])]
         beh.append(spec)
     evs = [rng.choice(keys) for _ in range(2)] + [rng.choice(kinds + [-1, 999])]
     ops = []
+    def datum():
+        return rng.choice([t for t in range(NS) if t != 7]) if objmode else rng.randint(1, 3)
     for _ in range(rng.randint(3, 24)):
         if rng.random() < 0.6:
             kind = rng.choice(["l", "l", "l", "s", "t", "u", "d"])
@@ -328,9 +532,12 @@ def gen_random(rng, keys, kinds, langs_pool):
                     langs = sorted(set(langs))
             ops.append(["r", rng.choice(evs), rng.randrange(nb), kind, langs])
         else:
-            ops.append(["n", rng.choice(evs), rng.choice(langs_pool), rng.randint(1, 3)])
-    ops.append(["n", evs[0], rng.choice(langs_pool), 1])
-    return {"beh": beh, "ops": ops}
+            ops.append(["n", rng.choice(evs), rng.choice(langs_pool), datum()])
+    ops.append(["n", evs[0], rng.choice(langs_pool), datum()])
+    sc = {"beh": beh, "ops": ops, "ck": "".join(rng.choice("ccfme") for _ in range(nb))}
+    if objmode:
+        sc["data"] = "obj"
+    return sc
 
 
 # --------------------------------------------------------------------------------------------
@@ -340,9 +547,12 @@ def classify(sc, real, keys, ANY, stats):
     """distribution statistics + non-triviality of one scenario, measured on the real output"""
     nontrivial = False
     nreg = {}
+    ck = sc.get("ck", "c")
     for op, out in zip(sc["ops"], real["outs"]):
         if op[0] == "r":
             stats["reg_" + op[3]] = stats.get("reg_" + op[3], 0) + 1
+            k = "callable_" + ck[min(op[2], len(ck) - 1)]
+            stats[k] = stats.get(k, 0) + 1
             if out[0] == "r" and out[1]:
                 stats["reg_unknown_event"] = stats.get("reg_unknown_event", 0) + 1
             else:
@@ -361,6 +571,17 @@ def classify(sc, real, keys, ANY, stats):
                 stats["none_return_ran"] = stats.get("none_return_ran", 0) + 1
             if any(t[3] is not None and t[3] > 15 for t in trace):
                 stats["undefined_bits_returned"] = stats.get("undefined_bits_returned", 0) + 1
+            if sc.get("data") == "obj":
+                stats["notify_object_data"] = stats.get("notify_object_data", 0) + 1
+                for t in trace:
+                    if isinstance(t[4], int):
+                        k = "left_" + SHAPE_NAMES[t[4] % NS]
+                        stats[k] = stats.get(k, 0) + 1
+                    if t[4] == t[1] and t[4] != t[2]:
+                        stats["left_the_in_data_object_itself"] = stats.get("left_the_in_data_object_itself", 0) + 1
+            hs = [t[0] for t in trace]
+            if len(set(hs)) < len(hs):
+                stats["same_handler_ran_twice"] = stats.get("same_handler_ran_twice", 0) + 1
             skipped = nreg.get(op[1], 0) - len(trace)
             if len(trace) >= 2 or (trace and (cut or skipped > 0)):
                 nontrivial = True
@@ -672,8 +893,8 @@ def violates(sc):
 
 
 def shrink(sc):
-    ops = common.shrink_list(sc["ops"], lambda c: len(c) > 0 and violates({"beh": sc["beh"], "ops": c}) is not None)
-    return {"beh": sc["beh"], "ops": ops}
+    ops = common.shrink_list(sc["ops"], lambda c: len(c) > 0 and violates(dict(sc, ops=c)) is not None)
+    return dict(sc, ops=ops)
 
 
 def fingerprints():
@@ -771,7 +992,7 @@ def run(ctx):
         for f in sorted(os.listdir(corpus_dir)):
             if f.endswith(".json"):
                 j = json.load(open(os.path.join(corpus_dir, f)))
-                corpus.append({"beh": j["beh"], "ops": j["ops"]})
+                corpus.append({k: j[k] for k in ("beh", "ops", "data", "ck") if k in j})
     n_rand = 4000 if tier == "quick" else 120000
     pool_langs = [l.name for l in LANG_TABLE] + ["abc", params["any"], params["any"]]
     rnd = [gen_random(ctx.rng, params["keys"], real.all_kinds, pool_langs) for _ in range(n_rand)]
@@ -798,6 +1019,13 @@ def run(ctx):
         parts.append(("flags_wide_returns", gen_flags_reduced(n, E1, RETS_WIDE)))
     for n in range(1, 5):
         parts.append(("dataflow", gen_dataflow(n, E1)))
+    for n in range(1, nmax + 2):
+        for ck in "fme":
+            parts.append(("callables", gen_callables(n, E1, ck)))
+    parts.append(("shapes", gen_shapes(E1)))
+    for n in range(1, 4):
+        parts.append(("dataflow_objects", as_obj(gen_dataflow(n, E1))))
+    parts.append(("flags_objects", as_obj(gen_flags(2, E1))))
     for n in range(0, nmax + 1):
         forms = LANG_FORMS_FULL if n <= nmax - 1 else LANG_FORMS_SMALL[:small_forms]
         parts.append(("regs", gen_regs(n, forms, E1, E2, UNK)))
@@ -830,7 +1058,10 @@ def run(ctx):
         f"EVENT_KIND value, -1 and 999; flags: every "
         f"registration of 0..{nmax} handlers for one event x {{matching, non-matching}} x returns {RETS} x "
         f"{{assigns out_data, keeps it}} (+ {extra_slice} with one representative non-matching behaviour); "
-        f"flags_wide_returns: 1..{nmax - 1} handlers x {len(RETS_WIDE)} return values; dataflow: 1..4 handlers x 4 returns x 4 out_data modes with a data-dependent last return; regs: every sequence of 0..{nmax} registrations over {{2 known events, an "
+        f"flags_wide_returns: 1..{nmax - 1} handlers x {len(RETS_WIDE)} return values; dataflow: 1..4 handlers x 4 returns x 4 out_data modes with a data-dependent last return; callables: every sequence of 1..{nmax + 1} registrations of 2 handlers "
+        f"where a handler number is ONE callable (same function / bound methods of one object / equal-but-distinct callables) x 4 language sets x success-or-blocking, raised for 3 languages; "
+        f"shapes: object data resolved by identity (tokens of {NS} Python shapes: {', '.join(SHAPE_NAMES)}): {NS - 1} initial in_data x {NS} shapes left x 4 returns x "
+        f"4 ways the next handler treats out_data x 2 returns; dataflow/flags slices repeated over object data; regs: every sequence of 0..{nmax} registrations over {{2 known events, an "
         f"EVENT_KIND without list}} x {len(LANG_FORMS_FULL)} language-set forms ({small_forms} for the longest length) x "
         f"{{SUCCESS, SUCCESS|STOP_OTHER}}, each followed by 5 notifications; {n_rand} random interleaved histories (seeded); "
         "default table x every event kind x every language x stubbed behaviours; one optional handler file run. "
